@@ -76,6 +76,9 @@ def crate_of(path):
     return None
 
 
+ADDED = None   # when set: only lines added by a patch (their stripped text) are mutated
+
+
 def mutants_of(path, only=None, ops=None):
     ops = OPS if ops is None else ops
     src = open(os.path.join(REPO, path)).read().split("\n")
@@ -89,6 +92,8 @@ def mutants_of(path, only=None, ops=None):
         if in_test or not st or st.startswith(("#", "use ", "pub use", "mod ", "//", "///", "debug_assert", "assert")) or re.match(r"(pub(\([a-z]+\))? )?(const |unsafe )?(fn|type|impl|trait|struct|enum)\b", st):
             continue
         if only and not re.search(only, line):
+            continue
+        if ADDED is not None and st not in ADDED:
             continue
         for pat, rep in ops:
             for m in re.finditer(pat, code):
@@ -152,9 +157,12 @@ def main():
     ap.add_argument("--out", default=None)
     ap.add_argument("--only", default=None)
     ap.add_argument("--files", default=None, help="comma-separated override of the files to mutate")
+    ap.add_argument("--added-by", default=None, help="a patch file: mutate only the lines it adds (REPO must be a scratch clone with the patch committed)")
     ap.add_argument("--ops", default="base,pairs", help="comma-separated operator sets: base, pairs, deep")
     a = ap.parse_args()
-    global SWAP_ADJ, DELETE
+    global SWAP_ADJ, DELETE, ADDED
+    if a.added_by:
+        ADDED = {l[1:].split("//")[0].strip() for l in open(a.added_by) if l.startswith("+") and not l.startswith("+++")} - {""}
     sets = a.ops.split(",")
     ops = (OPS if "base" in sets else []) + (PAIR_OPS if "pairs" in sets else []) + (DEEP_OPS if "deep" in sets else [])
     SWAP_ADJ = "deep" in sets
